@@ -35,6 +35,7 @@ type kvStep struct {
 	C string    `json:"c"`
 	X bool      `json:"x,omitempty"`
 	D int       `json:"d,omitempty"` // Ctx form only: 0 live context, 1 already cancelled, 2 deadline already expired
+	B int       `json:"b,omitempty"` // shard fault: 0 none, n: shard n-1 answers every command with an error during this step
 	K []string  `json:"k,omitempty"`
 	S []string  `json:"s,omitempty"`
 	I []int64   `json:"i,omitempty"`
@@ -239,6 +240,24 @@ func kvSnapshot(m *miniredis.Miniredis) map[string]string {
 // keyspace: (1) the union of the shard keyspaces equals the reference keyspace,
 // (2) no key lives on two shards, (3) every key lives on the shard that a consistent
 // hash over the same node names and weights assigns to it.
+// owner: index of the shard that a consistent hash over the same node names and
+// weights assigns to key (-1: none).
+func (e *kvEnv) owner() func(key string) int {
+	ring := hash.NewConsistentHash()
+	addrIdx := map[string]int{}
+	for i, w := range e.c.Weights {
+		ring.AddWithWeight(kvShards[i].Addr(), w)
+		addrIdx[kvShards[i].Addr()] = i
+	}
+	return func(key string) int {
+		n, ok := ring.Get(key)
+		if !ok {
+			return -1
+		}
+		return addrIdx[n.(string)]
+	}
+}
+
 func (e *kvEnv) checkKeyspace() string {
 	ring := hash.NewConsistentHash()
 	for i, w := range e.c.Weights {
@@ -350,6 +369,66 @@ func (e *kvEnv) step(s kvStep) string {
 	e.types[ent.typ] = true
 	e.classes["cmd:"+s.C] = true
 	dead := s.X && s.D != 0
+	// shard fault: for the duration of this step shard B-1 answers every command with an
+	// error reply. Faults are outside the statement's quantifier; judged is only what
+	// the statement implies: commands whose key lives on another shard are unaffected,
+	// and a multi-key Del still removes every named key living on a healthy shard and
+	// reports an error. Everything about keys on the failing shard (and Del's count) is
+	// UNSPECIFIED. The store is rebuilt before and after such a step (fresh per-node
+	// breakers), so that the error replies of the step cannot make a breaker reject.
+	if s.B > 0 && s.B <= len(e.c.Weights) && !dead && len(s.K) > 0 {
+		f := s.B - 1
+		own := e.owner()
+		var healthy, faulted []string
+		for _, k := range s.K {
+			if own(k) == f {
+				faulted = append(faulted, k)
+			} else {
+				healthy = append(healthy, k)
+			}
+		}
+		e.newStore()
+		kvShards[f].SetError("ERR verif: shard unavailable")
+		defer func() {
+			kvShards[f].SetError("")
+			e.newStore()
+		}()
+		e.classes["fault:"+s.C] = true
+		if len(faulted) > 0 {
+			if s.C != "Del" {
+				// UNSPECIFIED: run for panics only
+				e.classes["fault:own-shard-unjudged"] = true
+				ent.wrap(e.store, context.Background(), s)
+				return ""
+			}
+			e.classes[fmt.Sprintf("fault:del-healthy-keys:%d", len(healthy))] = true
+			var gerr error
+			if s.X {
+				_, gerr = e.store.DelCtx(context.Background(), s.K...)
+			} else {
+				_, gerr = e.store.Del(s.K...)
+			}
+			if gerr == nil {
+				return fmt.Sprintf("shard %d answered errors for %v but Del returned a nil error", f, faulted)
+			}
+			if len(healthy) > 0 {
+				if err := kvRef.Del(context.Background(), healthy...).Err(); err != nil {
+					return "reference Del: " + err.Error()
+				}
+			}
+			for _, k := range faulted { // unspecified: follow whatever the store did
+				if !kvShards[f].Exists(k) {
+					kvRefSrv.Del(k)
+				}
+			}
+			if d := e.checkKeyspace(); d != "" {
+				return fmt.Sprintf("shard %d failing (keys %v on it): Del must still remove the named keys on healthy shards %v: %s", f, faulted, healthy, d)
+			}
+			return ""
+		}
+		e.classes["fault:other-shard"] = true
+		// no named key lives on the failing shard: the step is judged as usual
+	}
 	if !dead && len(s.K) > 0 && kvRefSrv.Exists(s.K[0]) && (ent.mtype == "*" || kvRefSrv.Type(s.K[0]) == ent.mtype) {
 		e.hits++
 		e.classes["hit:"+s.C] = true
@@ -561,6 +640,16 @@ func kvGen(rt *rapid.T) kvCase {
 				s.D = 1
 			case 1:
 				s.D = 2
+			}
+		}
+		// shard fault: about 3 multi-key deletes in 10 and 1 other command in 20
+		if (name == "Del" && g.uni(10) < 3) || g.uni(20) == 0 {
+			s.B = 1 + g.uni(ns)
+			if name == "Del" { // 2..5 keys: usually some on the failing and some on healthy shards
+				s.K = nil
+				for n := 2 + g.uni(4); n > 0; n-- {
+					s.K = append(s.K, kvAllKeys[g.uni(len(kvAllKeys))])
+				}
 			}
 		}
 		c.Steps = append(c.Steps, s)
